@@ -116,6 +116,44 @@ class MfptsSinks(Contract):
                                                                                  L.forall(0, n, lambda i: R[i] == lag * x[i]))))]
 
 
+class MfptsAllPairs(Contract):
+    """mfpts(tprob, populations=pi, lagtime) without sinks: W[i,j] = pi_j, Z = inverse of (I - T + W) (np.linalg.inv: assumed exact),
+    result[i,j] = lagtime * (Z[j,j] - Z[i,j]) / pi_j.  That this is zero on the diagonal and satisfies the first-step equations
+    m[i,j] = lag + sum_k T[i,k] m[k,j] (i != j) for a stationary pi is lemmas/MfptAll.lean."""
+    key = F + 'mfpts'
+    abstract_nonlinear = False
+    division_may_raise = True
+
+    def params(self, e, st):
+        import z3
+        from pyvc.logic import Arr
+        from pyvc.engine import NONE
+        n = z3.Int('n')
+        return {'tprob': sym_matrix(e, st), 'sinks': NONE, 'lagtime': z3.Real('lagtime'),
+                'populations': e.new_obj(st, Arr(z3.Array('populations', z3.IntSort(), z3.RealSort()), (n,), 'real'))}
+
+    def requires(self, L, A, G):
+        T = A['tprob']
+        n = L.shape(T, 0)
+        return [('square', L.shape(T, 1) == n), ('nonempty', n >= 1), ('one-population-per-state', L.len(A['populations']) == n)]
+
+    def ensures(self, L, A, N, R, G, V):
+        T, pi, lag = A['tprob'], A['populations'], A['lagtime']
+        n = L.shape(T, 0)
+        W, Z = V['W'], V['Z']
+        M = Z.meta['inverse_of']
+        return [('W-rows-are-the-populations', L.And(L.shape(W, 0) == n, L.shape(W, 1) == n, L.forall2((0, n), (0, n), lambda i, j: W[i, j] == pi[j]))),
+                ('Z-inverts-identity-minus-T-plus-W', L.forall2((0, n), (0, n), lambda i, j: M[i, j] == L.ite(i == j, 1, 0) - T[i, j] + pi[j])),
+                ('fundamental-matrix-formula', L.And(L.shape(R, 0) == n, L.shape(R, 1) == n,
+                                                     L.forall2((0, n), (0, n), lambda i, j: L.implies(pi[j] != 0, R[i, j] * pi[j] == lag * (Z[j, j] - Z[i, j]))))),
+                ('zero-on-the-diagonal', L.forall(0, n, lambda j: L.implies(pi[j] != 0, R[j, j] == 0)))]
+
+
+def registry_mfpts_all():
+    cs = [ImQ(), EqProbsOpaque(), MfptsAllPairs()]
+    return {c.key: c for c in cs}
+
+
 def registry_mfpts():
     cs = [ImQ(), EqProbsOpaque(), MfptsSinks()]
     return {c.key: c for c in cs}
